@@ -79,6 +79,10 @@ def spaces(tier, seed):
     sp.append(Product("typographic-apostrophes", {"lang": LANGS, "aw": range(12), "apo": ["'", "\u2019", "\u02bc", "\u2032"], "ctx": [0, 1],
                                                   "sel": ["lang"], "adl": [True], "base": [True]},
                       note="every vocabulary word of the language that contains an apostrophe, spelled with each apostrophe look-alike"))
+    sp.append(Product("unicode-normalization-forms", {"lang": LANGS, "uw": range(14), "nf": ["NFD", "NFC", "NFKD"], "ctx": [0, 1, 2], "sel": ["lang"], "adl": [True],
+                                                      "base": [True]},
+                      note="month / weekday / relative words of the language that contain a character with a canonical decomposition, written in another "
+                           "normalization form than the vocabulary's (decomposed accents as produced by macOS file names, PDF extractors, scrapers)"))
     sp.append(Product("glued-punctuation", {"lang": LANGS, "i": range(6), "j": range(6), "glue": [",", "'", ".", "-", ":", "/", ";", ")(", "\u2019", ",,"],
                                             "sel": ["lang"], "adl": [True], "base": [True]},
                       note="two tokens joined by a punctuation mark without spaces"))
@@ -98,6 +102,19 @@ def text_of(sub, c):
     if sub == "chained-reference-dates":
         t2 = c["t2"].replace("{month}", core8[0]).replace("{weekday}", core8[1] if len(core8) > 1 else "12").replace("{rel}", rel[0] if rel else "12")
         return c["t1"] + c["join"] + t2
+    if sub == "unicode-normalization-forms":
+        import unicodedata
+        info = vocab.locale_info(c["lang"])
+        ws = []
+        for k in vocab.MONTH_KEYS + vocab.WEEKDAY_KEYS:
+            ws += [w for w in (info.get(k) or [])[:2] if w and unicodedata.normalize(c["nf"], w) != w]
+        for vals in (info.get("relative-type") or {}).values():
+            ws += [w for w in vals[:1] if w and unicodedata.normalize(c["nf"], w) != w]
+        if c["uw"] >= len(ws):
+            return None
+        w = unicodedata.normalize(c["nf"], ws[c["uw"]])
+        j = joiner or " "
+        return [("5" + j + w + j + "2014"), (fill[0] + j + w + j + "10:30" + j + fill[0]), (w + "," + j + "12" + j + w)][c["ctx"]]
     if sub == "typographic-apostrophes":
         info = vocab.locale_info(c["lang"])
         ws = []
